@@ -200,10 +200,30 @@ impl<'r> G<'r> {
                     if self.rng.chance(1, 8) {
                         self.put("field ");
                     }
-                    let ty = self.random_type(true);
+                    // now and then the body declares again, with the same type, a field it inherits (a new field of
+                    // this record: one more outline child; from here on the name means the new declaration)
+                    let inherited: Vec<FieldInfo> =
+                        self.rec.as_ref().map(|r| r.fields.iter().filter(|f| !f.overridden && !declared_here.contains(&f.name) && f.ty != Ty::Code).cloned().collect()).unwrap_or_default();
+                    let redeclare = if !inherited.is_empty() && self.rng.chance(1, 8) { Some(inherited[self.rng.below(inherited.len())].clone()) } else { None };
+                    let ty = match &redeclare {
+                        Some(f) => f.ty.clone(),
+                        None => self.random_type(true),
+                    };
                     self.put_type(&ty);
                     self.put(" ");
-                    let name = if self.rec.as_ref().map(|r| r.is_class).unwrap_or(false) { self.shadow_name("f", 1) } else { self.fresh("f") };
+                    let name = match &redeclare {
+                        Some(f) => {
+                            if let Some(r) = self.rec.as_mut() {
+                                for old in r.fields.iter_mut().filter(|o| o.name == f.name) {
+                                    old.overridden = true;
+                                }
+                            }
+                            self.p.features.push("field:redeclares-inherited-field");
+                            f.name.clone()
+                        }
+                        None if self.rec.as_ref().map(|r| r.is_class).unwrap_or(false) => self.shadow_name("f", 1),
+                        None => self.fresh("f"),
+                    };
                     if self.shadowed_globals.contains(&name) && !self.masked.contains(&name) {
                         // the field's own initialiser would already mean the field, not the global
                         self.masked.push(name.clone());
@@ -213,11 +233,17 @@ impl<'r> G<'r> {
                     let d = self.decl_here(&name, DeclKind::Field, vec![ty.render(), name.clone()], doc, checked);
                     let r = self.p.decls[d].range;
                     children.push(OutlineNode { name: name.clone(), kind: "Field", range: r, children: vec![] });
-                    let initialised = self.rng.chance(4, 5);
+                    // (a re-declaration keeps a value: what was computed from the inherited field stays resolvable)
+                    let initialised = self.rng.chance(4, 5) || redeclare.is_some();
                     if initialised {
                         self.put(" = ");
                         let a = self.pos();
+                        if redeclare.is_some() {
+                            // no field is read here: another field may already be computed from the inherited one
+                            self.hidden_field = Some(name.clone());
+                        }
                         self.value(&ty, 0, "field-init");
+                        self.hidden_field = None;
                         let b = self.pos();
                         if let Some(bad) = incompatible_literal(&ty) {
                             self.p.fault_sites.push(FaultSite { file: self.cur, span: (a, b), replacement: bad.to_string(), class: "type-incompatible-initialiser", expect: (a, a + bad.len()) });
